@@ -267,10 +267,11 @@ def text_of(units):
 
 
 def write_evidence(prop, tier, seed, coverage, wall, violations, assumptions):
-    os.makedirs(os.path.join(V, "evidence"), exist_ok=True)
+    edir = os.environ.get("VERIF_EVIDENCE_DIR") or os.path.join(V, "evidence")
+    os.makedirs(edir, exist_ok=True)
     ev = dict(property_id=prop, tier=tier, seed=seed, level="model_checking", coverage=coverage,
               assumptions=assumptions, wall_s=round(wall, 1), violations=violations)
-    p = os.path.join(V, "evidence", prop + ".json")
+    p = os.path.join(edir, prop + ".json")
     with open(p + ".tmp", "w") as f:
         json.dump(ev, f, indent=1, ensure_ascii=False)
     os.replace(p + ".tmp", p)
